@@ -287,7 +287,7 @@ func TestVerif(t *testing.T) {
 					l.finish(g, candidateContents(cR1, cR2))
 				})
 			}},
-			{Name: "cas-vs-plain-vs-invalid", Quick: 2, Thorough: 3, Body: func(x *sched.X) {
+			{Name: "cas-vs-plain-vs-invalid", Quick: 1, Thorough: 2, Body: func(x *sched.X) {
 				g, l, v0 := setup(x)
 				if g == nil {
 					return
